@@ -1,9 +1,16 @@
-(* C01 - burndown matrices = line-lifetime ground truth.  Only statements closed by [exact]. *)
-From Coq Require Import List ZArith.
-From Herc Require Import Burndown.Base Burndown.Dense Burndown.DenseProofs.
+(* C01 - burndown matrices = line-lifetime ground truth.
+   Only statements closed by [exact] and their assumptions; the models are in theories/Burndown:
+   Dense.v (groupSparseHistory), Analysis.v (abstract BurndownAnalysis over arrays), Lifetimes.v (declarative
+   history and the ground-truth oracle), Linear.v / LinearProofs.v (linear histories with arbitrary edits),
+   Replay.v (canonical scripts, plan validator). *)
+From Coq Require Import List ZArith Bool.
+From Herc Require Import Burndown.Base Burndown.Dense Burndown.DenseProofs Burndown.Lifetimes
+  Burndown.LifetimesFacts Burndown.Analysis Burndown.SparseFacts Burndown.AnalysisFacts Burndown.LinearProofs
+  Burndown.Replay Burndown.CommitProofs Burndown.PlanProofs Burndown.MatrixProofs.
 Import ListNotations.
 Open Scope Z_scope.
 
+(* ---- the dense matrix: every cell, for every sparse history, sampling <, =, > granularity ---- *)
 Theorem C01_dense : forall G S H lastTick,
   1 <= S -> 1 <= G -> H <> [] -> nodup_zb (map fst H) = true ->
   sparse_wfb H (dense_last H lastTick) = true ->
@@ -14,3 +21,100 @@ Theorem C01_dense : forall G S H lastTick,
                  cell M s b = spec_cell G S H s b).
 Proof. exact DenseProofs.C01_dense. Qed.
 Print Assumptions C01_dense.
+
+Example C01_dense_nonvacuous :
+  group_sparse_history 3 2 [(5, [(5, 2); (0, -1)]); (0, [(0, 4)]); (2, [(2, 1); (0, -1)])] 7
+  = Ok ([[4; 0; 0]; [4; 0; 0]; [3; 2; 0]; [3; 2; 0]], 7).
+Proof. exact DenseProofs.C01_dense_nonvacuous. Qed.
+
+(* the empty history is a panic (F11), a last tick before the last key too *)
+Theorem C01_dense_empty_panics : forall G S lastTick, group_sparse_history G S [] lastTick = Panic PEmptyHistory.
+Proof. exact (gsh_empty alloc_fixed). Qed.
+Print Assumptions C01_dense_empty_panics.
+
+(* the row allocation before the repair (one row per band) panics as soon as sampling < granularity *)
+Theorem C01_dense_refuted_before_fix : exists G S H, 1 <= S <= G /\ nodup_zb (map fst H) = true /\
+  sparse_wfb H (last_z (sort_z (map fst H)) 0) = true /\ group_sparse_history_old G S H (-1) = Panic PIndex.
+Proof. exact DenseProofs.C01_dense_refuted_before_fix. Qed.
+Print Assumptions C01_dense_refuted_before_fix.
+
+(* ---- the ground-truth oracle the real matrices are compared with ---- *)
+Theorem C01_truth_nonneg : forall h G S keep row,
+  In row (truth_matrix h G S keep) -> forall v, In v row -> 0 <= v.
+Proof. exact truth_matrix_nonneg. Qed.
+Print Assumptions C01_truth_nonneg.
+
+Theorem C01_truth_row_sum : forall h G S, 1 <= G -> conflict_free h = true -> forall keep s,
+  sum_z (truth_row h G S keep s) =
+  count (fun pl => keep pl && alive_at h ((s + 1) * S - 1) (snd pl)) (all_lines h).
+Proof. exact truth_row_sum. Qed.
+Print Assumptions C01_truth_row_sum.
+
+Theorem C01_truth_last_row_is_head : forall h G S, 1 <= G -> 1 <= S ->
+  conflict_free h = true -> single_head h = true ->
+  sum_z (truth_row h G S keep_all (last_event h / S)) = lines_at_head h.
+Proof. exact truth_project_last_row. Qed.
+Print Assumptions C01_truth_last_row_is_head.
+
+(* ---- linear histories with arbitrary edit scripts: no negative cell, row sums = lines alive ---- *)
+Theorem C01_linear : forall cf G S cs b s M last,
+  1 <= S -> 1 <= G -> lin_wf 0 [] cs = true -> lin_run cf cs branch0 shared0 = Ok (b, s) ->
+  group_sparse_history G S (s_gh s) (-1) = Ok (M, last) ->
+  forall sidx, 0 <= sidx <= last / S ->
+    (forall bidx, 0 <= bidx <= last / G -> 0 <= cell M sidx bidx) /\
+    (forall pre suf, cs = pre ++ suf ->
+       (forall c, In c pre -> lc_tick c <= sample_end S sidx) ->
+       (forall c, In c suf -> sample_end S sidx < lc_tick c) ->
+       sum_z (map (cell M sidx) (zrange (last / G + 1))) = stotal (snap_run pre [])).
+Proof. exact LinearProofs.C01_linear. Qed.
+Print Assumptions C01_linear.
+
+(* non-vacuity: three commits (insert 3 lines; replace 1 and append 2 in one script; delete the file and add
+   another) run without error, pass lin_wf, and give the expected matrix *)
+Definition ex_lin : list lcommit :=
+  [ mkLC 0 0 [CInsert 1 3];
+    mkLC 0 2 [CModify 1 3 5 [(DEq, 1); (DDel, 1); (DIns, 1); (DEq, 1); (DIns, 2)]];
+    mkLC 0 5 [CDelete 1 5; CInsert 2 4] ].
+Example C01_linear_nonvacuous :
+  lin_wf 0 [] ex_lin = true /\
+  match lin_run (mkCfg 0 false) ex_lin branch0 shared0 with
+  | Ok (_, s) => group_sparse_history 2 2 (s_gh s) (-1) = Ok ([[3; 0; 0]; [2; 3; 0]; [0; 0; 4]], 5)
+  | _ => False
+  end.
+Proof. vm_compute. auto. Qed.
+
+(* ---- conflict-free histories, plans without merge actions (linear histories and forks) ---- *)
+(* the sparse global history: for every weight P, the weighted sum of its entries is the sum over all commits
+   of (lines born by c, booked at (tick c, tick c)) - (lines killed by c, booked at (tick c, birth tick)) *)
+Theorem C01_global_sparse_merge_free : forall h cf aidx plan w,
+  conflict_free h = true -> (forall c, 0 <= c < ncommits h -> tick_of h c < mark) ->
+  (forall c, 0 <= znth 0 aidx c) ->
+  plan_okb h plan = true -> merge_freeb plan = true -> run_hist cf h aidx plan = Ok w ->
+  forall P, wsum P (s_gh (w_shared w)) = sum_z (map (contrib h P) (zrange (ncommits h))).
+Proof.
+  intros h cf aidx plan w Hcf Hm Ha Hok Hmf Er.
+  exact (proj1 (global_sparse_merge_free h cf aidx Hcf Hm Ha plan w Hok (merge_freeb_no_merges plan Hmf) Er)).
+Qed.
+Print Assumptions C01_global_sparse_merge_free.
+
+(* every cell of the dense project matrix is the ground-truth cell *)
+Theorem C01_matrix_merge_free : forall h cf aidx plan w G S M last,
+  conflict_free h = true -> (forall c, 0 <= c < ncommits h -> tick_of h c < mark) ->
+  (forall c, 0 <= znth 0 aidx c) ->
+  plan_okb h plan = true -> merge_freeb plan = true -> run_hist cf h aidx plan = Ok w ->
+  1 <= G -> 1 <= S -> group_sparse_history G S (s_gh (w_shared w)) (-1) = Ok (M, last) ->
+  forall s b, 0 <= s <= last / S -> 0 <= b <= last / G -> cell M s b = truth_cell h G S keep_all s b.
+Proof. exact matrix_cells_merge_free. Qed.
+Print Assumptions C01_matrix_merge_free.
+
+(* non-vacuity: three commits, two heads (a fork), two developers, one line killed on a branch *)
+Definition ex_h : hist := mkHist [[]; [0]; [0]] [0; 1; 2] [0; 1; 0]
+  [(0, [mkLine 0 0 1; mkLine 1 0 (-1); mkLine 2 1 (-1); mkLine 3 2 (-1)]); (1, [mkLine 4 2 (-1)])].
+Definition ex_plan : list action := [AEmerge 1; ACommit 0 1; AFork 1 [2]; ACommit 1 1; ACommit 2 2].
+Example C01_matrix_merge_free_nonvacuous :
+  conflict_free ex_h = true /\ plan_okb ex_h ex_plan = true /\ merge_freeb ex_plan = true /\
+  match run_hist (mkCfg 2 true) ex_h [0; 1; 0] ex_plan with
+  | Ok w => group_sparse_history 2 1 (s_gh (w_shared w)) (-1) = Ok (truth_project ex_h 2 1, 2)
+  | _ => False
+  end.
+Proof. vm_compute. auto. Qed.
